@@ -97,14 +97,14 @@ bool run_tree(const Hist& hist, std::string& canon, std::string& why, int nkeys,
 }  // namespace
 
 namespace seqmc {
-int nvariants() { return 4; }
+int nvariants() { return 7; }
 const char* variant_name(int v) {
-    const char* n[] = {"set-keys1..8", "multiset-keys1..4", "set-keys1..10", "set-bigrange-defaultblock"};
+    const char* n[] = {"set-keys1..8", "multiset-keys1..4", "set-keys1..10", "set-bigrange-defaultblock", "set-18keys-built-ascending", "set-18keys-built-descending", "set-18keys-built-interleaved"};
     return n[v];
 }
 std::vector<Op> alphabet(int variant) {
     std::vector<Op> a;
-    int n = variant == 0 ? 8 : variant == 1 ? 4 : variant == 2 ? 10 : 7;
+    int n = variant == 0 ? 8 : variant == 1 ? 4 : variant == 2 ? 10 : variant >= 4 ? 18 : 7;
     for (int k = 1; k <= n; k++) {
         int kk = variant == 3 ? k - 1 : k;
         a.push_back({0, kk, 0});
@@ -121,6 +121,17 @@ bool run(int variant, const Hist& h, std::string& canon, std::string& why) {
     if (variant == 0) return run_tree<SetT, true>(h, canon, why, 8, false);
     if (variant == 1) return run_tree<MultiT, false>(h, canon, why, 4, false);
     if (variant == 2) return run_tree<SetT, true>(h, canon, why, 10, false);
+    // non-initial start states: a three-level tree of 18 keys built in a fixed order, then every history of erases and
+    // re-inserts (inner nodes underflow, rebalance from either sibling, merge, the root shrinks)
+    if (variant >= 4) {
+        Hist full;
+        for (int i = 1; i <= 18; i++) {
+            int k = variant == 4 ? i : variant == 5 ? 19 - i : (i % 2 ? (i + 1) / 2 : 19 - i / 2);
+            full.push_back({0, k, 0});
+        }
+        full.insert(full.end(), h.begin(), h.end());
+        return run_tree<SetT, true>(full, canon, why, 18, false);
+    }
     return run_tree<BigT, true>(h, canon, why, 7, true);
 }
 }  // namespace seqmc
